@@ -7,6 +7,7 @@ CONSTANTS
   Exclusions = {"none", "orig"}
   Percents = {"both"}
   ForgedKinds = {"none", "both"}
+  Outdated = {FALSE, TRUE}
   Variant = "last-wins"
 INVARIANTS TypeOK RespEqualsForwarded StationAgrees ForgedFieldsDropped OverridesOnlyIfAllowed SubstituteFromConfiguredSubnets EveryNonZeroSubnetUsed ExcludedNeverReplaced FamiliesAnswered
 CHECK_DEADLOCK FALSE
